@@ -6,6 +6,7 @@ package traefikoidc_test
 // evaluated here on the implementation's observable behaviour, from construction labels only.
 
 import (
+	"crypto/tls"
 	"bufio"
 	mrand "math/rand"
 	"bytes"
@@ -179,6 +180,22 @@ func newWorld(sc int, rng interface{ Intn(int) int }) *world {
 	w.excluded = [][]string{nil, {"/public"}, {"/public", "/health"}}[rng.Intn(3)]
 	w.domains = [][]string{nil, {"example.com"}, {"example.com", "corp.test"}}[rng.Intn(3)]
 	w.roles = [][]string{nil, nil, {"admin"}, {"admin", "dev"}}[rng.Intn(4)]
+	if T.prop == "C06" { // lists as a deployment may produce them: blank entries (an unset variable, a trailing comma), alone or among real ones
+		switch sc % 12 {
+		case 3:
+			w.domains = []string{""}
+		case 5:
+			w.domains = []string{" "}
+		case 7:
+			w.roles = []string{""}
+		case 8:
+			w.domains, w.roles = []string{"example.com", ""}, []string{" ", "admin"}
+		case 10:
+			w.domains, w.roles = nil, []string{" "}
+		case 11:
+			w.domains, w.roles = []string{"", " "}, []string{"", " "}
+		}
+	}
 	switch rng.Intn(4) {
 	case 1:
 		w.tmpls = []tmplCfg{{name: "X-Tpl-Email", text: "{{.Claims.email}}"}, {name: "X-Tpl-Fail", text: "{{index .Claims.arr 5}}"}}
@@ -446,6 +463,7 @@ type reqSpec struct {
 	accept    string
 	origin    string
 	xfProto   string
+	tls       bool // the request arrived on a TLS connection terminated by this server (no proxy in front)
 	xfHost    string
 	hdrs      [][2]string // extra client headers (identity header spoofing etc.)
 	exchange  *tokenAnswer
@@ -543,6 +561,9 @@ func (w *world) prep(rs *reqSpec) (*http.Request, [][]string) {
 		return nil, nil
 	}
 	r.RemoteAddr = "192.0.2.1:1234"
+	if rs.tls {
+		r.TLS = &tls.ConnectionState{Version: tls.VersionTLS13, HandshakeComplete: true}
+	}
 	if rs.accept != "" {
 		r.Header.Set("Accept", rs.accept)
 	}
@@ -789,6 +810,9 @@ func (w *world) observe(rs reqSpec, r *http.Request, clientHdrs [][]string, rec 
 
 	// ------------------------------------------------------------------ the step for the model
 	scheme := "http"
+	if rs.tls {
+		scheme = "https"
+	}
 	if rs.xfProto != "" {
 		scheme = rs.xfProto
 	}
@@ -1161,6 +1185,9 @@ func truncAll(v []string) []string {
 
 func obsBase(rs reqSpec) string {
 	scheme, host := "http", "app.test"
+	if rs.tls {
+		scheme = "https"
+	}
 	if rs.xfProto != "" {
 		scheme = rs.xfProto
 	}
